@@ -60,6 +60,31 @@ int main (void)
           if (dbus_signature_validate_single (c, NULL)) mask |= 1u << 15;
           free (c);
         }
+      {
+        /* the same predicates on the same bytes EMBEDDED in a larger string (as when a header field of a
+         * received message is validated in place): the verdict must not depend on the surroundings */
+        static const char pre[] = "A.";
+        static const char post[] = ".B:/c.d";
+        size_t pl = sizeof pre - 1, sl = sizeof post - 1;
+        unsigned char *big = malloc (pl + (size_t) n + sl + 1);
+        unsigned m2 = 0;
+        DBusString bstr;
+        memcpy (big, pre, pl);
+        memcpy (big + pl, buf, (size_t) n);
+        memcpy (big + pl + n, post, sl);
+        big[pl + n + sl] = 0;
+        _dbus_string_init_const_len (&bstr, (const char *) big, (int) (pl + n + sl));
+        if (_dbus_validate_bus_name (&bstr, (int) pl, (int) n)) m2 |= 1u << 0;
+        if (_dbus_validate_interface (&bstr, (int) pl, (int) n)) m2 |= 1u << 1;
+        if (_dbus_validate_member (&bstr, (int) pl, (int) n)) m2 |= 1u << 2;
+        if (_dbus_validate_error_name (&bstr, (int) pl, (int) n)) m2 |= 1u << 3;
+        if (_dbus_validate_path (&bstr, (int) pl, (int) n)) m2 |= 1u << 4;
+        if (_dbus_string_validate_utf8 (&bstr, (int) pl, (int) n)) m2 |= 1u << 5;
+        if (_dbus_validate_signature_with_reason (&bstr, (int) pl, (int) n) == DBUS_VALID) m2 |= 1u << 6;
+        if (m2 != (mask & 0x7fu)) mask |= 1u << 20;   /* embedded verdict differs */
+        mask |= (m2 & 0x7fu) << 21;
+        free (big);
+      }
       printf ("%u\n", mask);
       free (buf);
       free (line);
